@@ -23,7 +23,8 @@
   Covered in extension modules: the GF(2) pivot for `reg` (C10Pivot.lean), 1- and 2-sums for `reg` (C10Sums.lean),
   the non-transposition, non-pivot steps for `gra`/`cog`/`net`/`con` (C10Graphic.lean).
   the GF(2) pivot for `spb` and the GF(3) pivot for `spt` (C10SPPivot.lean).
-  Not covered: the GF(2) pivot for `gra`/`cog`, the GF(3) pivot for `net`/`con`, the class `cam`,
+  the GF(2) pivot for `gra` and the GF(3) pivot for `net` (C10GraphicPivot.lean).
+  Not covered: the GF(2) pivot for `cog`, the GF(3) pivot for `con`, the class `cam`,
   sums for classes other than `tu`, `reg` (C10Sums.lean), `gra` and `net` (C10GraphicSums.lean), `spb` and `spt` (C10SPSums.lean).
 -/
 import CmrProofs.Lemmas.RelLemmas
